@@ -147,6 +147,38 @@ class Prop:
                          {'cmd': 'commstate_bits', 'type': t, 'radio': r, 'bits': bits}, exp, o,
                          {'cmd': 'commstate_bits', 'type': t})
 
+    # --- the two ties of the comm-state functions -------------------------------------------------
+    SOURCE_TEXT = ('C20_src_', 'C20_source_', 'mem4')
+
+    def only_source_text(self, broken):
+        def is_src(b):
+            if b['kind'] == 'theorem':
+                return b['name'].startswith(self.SOURCE_TEXT)
+            if b['kind'] == 'translator':
+                return all('comm-state function' in d for d in b['detail'])
+            return False
+        return bool(broken) and all(is_src(b) for b in broken)
+
+    def search(self, ctx, broken):
+        """when only the source-text obligations (tie 1) broke: the complete enumeration of the thorough tier, model
+        against code and code against the ITU reading; otherwise the generic search"""
+        from harness import framework
+        if not self.only_source_text(broken) or not ctx.model_available:
+            return framework.generic_search(self, ctx, ctx.pid)
+        c2 = framework.Ctx(ctx.pid, 'thorough', ctx.seed, ctx.model_available, False)
+        self.run(c2)
+        ctx.evaluations += c2.evaluations
+        ctx.dist['complete_enumeration_cases'] = c2.evaluations
+        ctx.failures.extend(c2.failures)
+        ctx.disagreements.extend(c2.disagreements)
+        if not c2.failures and not c2.disagreements:
+            ctx.dist['complete_enumeration_clean'] = 1
+
+    def second_tie(self, ctx, broken):
+        if self.only_source_text(broken) and ctx.dist.get('complete_enumeration_clean') and not ctx.disagreements:
+            return list(broken)
+        return []
+
     def replay(self, ctx, payload):
         inp = payload['failure']['input']
         if inp['cmd'] == 'commstate_bits':
